@@ -566,7 +566,8 @@ def _small_c20(tier, seed, shard=(0, 1)):
     if k % shard[1] == shard[0]:
         yield {"kind": "cdda", "paths": ["T0", "T1"],
                "expect": {"T0": {"num_channels": 2, "sample_rate": 44100, "num_audio_samples": 588 * 2},
-                          "T1": {"num_channels": 2, "sample_rate": 44100, "num_audio_samples": 588 * 2}}}
+                          # the last track runs to the end of the 7-sector (+6 bytes) bin: (7 - 2) whole sectors
+                          "T1": {"num_channels": 2, "sample_rate": 44100, "num_audio_samples": 588 * 5}}}
 
 
 @contract("e2e:C20", props=["C20"], abstract=True)
